@@ -139,7 +139,7 @@ func classOf(kind string) string {
 }
 
 func elemMatch(core, e string) bool {
-	if core == e {
+	if core == e || strings.HasPrefix(e, core+"/") { // "x/variant" is a variant of the atom kind "x"
 		return true
 	}
 	if strings.HasPrefix(core, "~") {
@@ -203,7 +203,7 @@ func (ck *checker) runUnits(b *batch, units []*unit) {
 		ck.harness(fmt.Sprintf("batch %s: %v", b.name, err))
 		return
 	}
-	ev := evalProg(p)
+	ev := evalProg(p, len(units) == 1)
 	ck.nBatches.Inc()
 	if ev.GoErr != "" {
 		if len(units) > 1 && units[0].kind == "shape" {
@@ -365,7 +365,7 @@ func (ck *checker) failing(b *batch, u *unit, m *mismatch) {
 			return
 		}
 		// confirm on the shape alone (also what the replay will run)
-		ev := evalProg(sp)
+		ev := evalProg(sp, false)
 		var mm *mismatch
 		for i := range ev.Mism {
 			if ev.Mism[i].Kind == m.Kind {
@@ -448,7 +448,7 @@ func (ck *checker) minimise(b *batch, u *unit, m *mismatch) (Fn, mismatch, []str
 			return Fn{}, mismatch{}, false
 		}
 		ck.nMinRun.Inc()
-		ev := evalProg(&Prog{Prelude: b.prelude, Fns: []Fn{fn}})
+		ev := evalProg(&Prog{Prelude: b.prelude, Fns: []Fn{fn}}, false)
 		if ev.NeoErr != "" || ev.GoErr != "" {
 			return Fn{}, mismatch{}, false
 		}
@@ -888,7 +888,7 @@ func replay(ck *checker) {
 	calls := 0
 	var last *mismatch
 	for i := 0; i < 5; i++ {
-		ev := evalProg(d.Prog)
+		ev := evalProg(d.Prog, false)
 		calls += ev.Calls
 		o := "agree"
 		if ev.NeoErr != "" || ev.GoErr != "" {
